@@ -1,5 +1,5 @@
 (* C13 Instantiation accepts exactly the coherent configurations. *)
-From ATS Require Import Prelude Dec Uuid Semver Types Contract Tactics InstProofs.
+From ATS Require Import Prelude Dec Uuid Semver Types Contract Tactics InstProofs Numeral.
 
 (* accepted <-> coherent: non-empty name, base, quote list, executor list; precision <= 18; increment >= 1 and a
    multiple of 10^precision; each fee pair whole (both empty = no fee, else parseable rate + valid account);
@@ -33,3 +33,17 @@ Example C13_accepts : is_ok (instantiate ex_env empty_state (ex_msg 300)) = true
 Proof. vm_compute. reflexivity. Qed.
 Example C13_refuses : is_ok (instantiate ex_env empty_state (ex_msg 250)) = false.
 Proof. vm_compute. reflexivity. Qed.
+
+(* what "parses as a decimal" means for the plain numerals [+|-] digits [. digits] (at most 28 decimals, the digits
+   read as one integer below 2^96): the parser returns exactly (sign, digits as an integer, number of decimals), so
+   a stored rate or price *is* the number written, and the arithmetic theorems on mantissa/scale pairs (C02 C03 C04
+   C07 C09 C12) speak about those numbers *)
+Theorem C13_numerals_mean_their_value : forall s ws fs (pointed : bool),
+  let '(neg, body) := sign_split (codes s) in
+  body = (if pointed then ws ++ dot :: fs else ws) ->
+  all_digits ws = true -> all_digits fs = true ->
+  (if pointed then ws <> [] \/ fs <> [] else ws <> [] /\ fs = []) ->
+  N.of_nat (List.length fs) <= 28 -> digits_val (ws ++ fs) 0 < B96 ->
+  dec_parse s = Some (result neg (digits_val (ws ++ fs) 0) (N.of_nat (List.length fs))).
+Proof. exact dec_parse_numeral. Qed.
+Print Assumptions C13_numerals_mean_their_value.
